@@ -440,6 +440,8 @@ func verifLemmaSourceConnected(o *IPFSLog, A iface.IPFSLogOrderedEntries) {
 //@   ensures logB == nil ==> len(om(result).keys) == 0
 //@ @wf ensures [difference-collects-new-source-heads] logB != nil ==> diffSeeds(entriesA, headsA, logB, result)
 //@ @wf ensures [difference-follows-every-available-predecessor] logB != nil ==> diffDown(entriesA, logB, result)
+//@ @wf ensures [difference-leaves-the-indexes-valid] logB != nil ==> validEntries(entriesA) && validEntries(result) && validEntries(logB.Entries)
+//@ @wf ensures [collected-entries-are-source-entries] logB != nil ==> subMap(result, entriesA)
 //@ @wf uselemma verifLemmaDifferenceComplete(entriesA, headsA, logB, result, _, _)
 //@ @wf ensures [difference-is-complete] forall H iface.IPFSLogOrderedEntries :: logB != nil && isOM(H) && headsCover(headsA, H) && connectedUp(entriesA, H) && closedLog(logB) && sameLinks(entriesA, logB) && oneID(entriesA, logB.ID) ==> forall x string :: has(omv(entriesA), x) && !has(ent(logB), x) ==> has(omv(result), x)
 //@   lockensures held[om(result).lock] == 0
